@@ -808,6 +808,17 @@ def generate_request_notification_methods(spec: model.LSPModel, types: TypeData)
     types.add_type_info(enum_type, "LSPMethods", lines)
 
 
+def get_message_name(
+    obj: Union[model.Request, model.Notification], is_request: bool
+) -> str:
+    """Class name of a request / notification message, with or without `typeName`."""
+    text = "Request" if is_request else "Notification"
+    name = get_name(obj)
+    if not name.endswith(text):
+        name += text
+    return name
+
+
 def get_message_template(
     obj: Union[model.Request, model.Notification],
     is_request: bool,
@@ -859,9 +870,7 @@ def get_message_template(
             }
         )
 
-    name = get_name(obj)
-    if not name.endswith(text):
-        name += text
+    name = get_message_name(obj, is_request)
 
     class_template = {
         "name": name,
@@ -922,9 +931,7 @@ def get_response_template(
         }
     )
 
-    response_name = get_name(obj)
-    if response_name.endswith("Request"):
-        response_name = response_name[:-7] + "Response"
+    response_name = get_message_name(obj, is_request=True)[:-7] + "Response"
 
     class_template = {
         "name": response_name,
@@ -949,7 +956,7 @@ def get_registration_options_template(
             for struct in structs:
                 properties += get_all_properties(struct, spec)
 
-            name = get_name(obj)
+            name = get_message_name(obj, isinstance(obj, model.Request))
             if name.endswith("Request"):
                 name = name[:-7] + "RegistrationOptions"
             elif name.endswith("Notification"):
@@ -987,10 +994,8 @@ def generate_all_classes(spec: model.LSPModel, types: TypeData):
             partial_result_name = get_type_name(request.partialResult, types, spec)
 
         struct = get_message_template(request, is_request=True)
-        request_name = get_name(request)
-        response_name = request_name
-        if response_name.endswith("Request"):
-            response_name = response_name[:-7] + "Response"
+        request_name = get_message_name(request, is_request=True)
+        response_name = request_name[:-7] + "Response"
         generate_class_from_struct(
             struct,
             spec,
